@@ -95,6 +95,7 @@ type Case struct {
 	PIAKI         int  // 0 none, 1 key id (20), 2 short key id, 3 key id + issuer + serial, 4 long key id
 	PIAKICrit     bool
 	PIEKUShape    int // where the CT EKU sits among the pre-issuer's EKUs
+	IssuerCTEKU   bool // with a pre-issuer only: the final issuer itself lists the CT EKU next to other EKUs (EKU-constrained CA)
 	IssuerSKI     int // subjectKeyIdentifier of the final issuer: 0 absent, 1 key-derived, 2.. one of skiPool (independent of the key)
 	PISKI         int // same for the pre-issuer
 	SiblingOff    int // selects the key of the sibling issuer (same name and SKI as the final issuer, another key)
@@ -360,6 +361,7 @@ func genCase(t *rapid.T, signedAnchor bool) Case {
 	c.SiblingFirst = rapid.Bool().Draw(t, "sibfirst")
 	c.PreIssuer = rapid.IntRange(0, 9).Draw(t, "preissuer") < 5
 	if c.PreIssuer {
+		c.IssuerCTEKU = rapid.IntRange(0, 2).Draw(t, "issctEKU") == 0
 		c.PIName = genName(t, "pi", false)
 		c.PIKeyIdx = rapid.IntRange(0, 5).Draw(t, "piidx")
 		c.PIAKI = rapid.IntRange(0, 4).Draw(t, "piaki")
@@ -705,7 +707,14 @@ func Build(c *Case, realSig bool) *World {
 	caExts := func(k *keys.Key) []pki.Ext {
 		return append([]pki.Ext{pki.BasicConstraints(true, -1, true), pki.KeyUsage(pki.KUKeyCertSign, pki.KUCRLSign)}, skiExt(c.IssuerSKI, k)...)
 	}
-	w.I = caCert(w.IName, w.IName, w.IssuerKey, w.IssuerKey, w.Alg, 1000, caExts(w.IssuerKey))
+	iExts := caExts(w.IssuerKey)
+	if c.PreIssuer && c.IssuerCTEKU {
+		// An EKU-constrained CA that must list the CT EKU in order to issue the pre-issuer below it. It is
+		// still the issuer of the final certificate. (Without a pre-issuer below it such a CA would itself
+		// be the "precertificate signing certificate" of RFC 6962 s3.1 - that shape is not generated.)
+		iExts = append(iExts, pki.EKU(pki.OIDEKUServerAuth, pki.OIDEKUClientAuth, pki.OIDEKUCT))
+	}
+	w.I = caCert(w.IName, w.IName, w.IssuerKey, w.IssuerKey, w.Alg, 1000, iExts)
 	// the sibling: another CA with the same name and the same SKI selection but a different key of the same kind
 	ipool := len(keys.Kind(c.IssuerKeyKind))
 	w.SibKey = keys.Pick(c.IssuerKeyKind, c.IssuerKeyIdx+1+c.SiblingOff%(ipool-1))
@@ -969,6 +978,9 @@ func lenClass(n int) string {
 }
 
 func (w *World) classify(c *Case, v *harness.Verdict) {
+	if c.PreIssuer && c.IssuerCTEKU {
+		v.Class("final-issuer-has-ct-eku")
+	}
 	if c.PreIssuer {
 		v.Class("route=preissuer")
 		hasAKI := false
